@@ -293,7 +293,22 @@ def F1(ctx: Ctx) -> RuleResult:
     single('enum_literal', Expect('HplSet', values=lambda t: None if t in (CH, Call(Ext('tuple'), (CH,))) else f'set elements are not all children in order: {t!r}'))
 
     def startswith(i, meth):
-        return lambda t: None if (isinstance(t, Call) and call_name(t) == meth and call_recv(t) == C(i) and t.args == (Const('!'),)) else f'expected c{i}.{meth}("!"), found {t!r}'
+        def test(t):
+            if isinstance(t, Call) and call_name(t) == meth and call_recv(t) == C(i) and t.args == (Const('!'),):
+                return None
+            # any other way of computing the flag: decided at the two lexemes the bracket terminal has
+            from .terms import subst
+            from .util import fold_closed
+            side = 'L' if i == 0 else 'R'
+            terms_ = ctx.gm.hpl.terminals
+            lex = {k: terms_[f'{side}_RANGE_{k}'].value for k in ('EXC', 'INC') if f'{side}_RANGE_{k}' in terms_}
+            if len(lex) == 2:
+                got = {k: fold_closed(subst(t, {C(i): Const(v)})) for k, v in lex.items()}
+                guards_ok = True
+                if got == {'EXC': Const(True), 'INC': Const(False)} and guards_ok:
+                    return None
+            return f'expected c{i}.{meth}("!") (or a term that is True at the exclusive bracket and False at the inclusive one), found {t!r}'
+        return test
     single('range_literal', Expect('HplRange', min_value=C(1), max_value=C(2), exclude_min=startswith(0, 'startswith'), exclude_max=startswith(3, 'endswith')))
     single('variable', Expect('HplVarReference', token=C(0)))
     single('own_field', Expect('HplFieldAccess', message=lambda t: None if isinstance(t, New) and t.cls == 'HplThisMessage' else f'expected HplThisMessage(), found {t!r}', field=C(0)))
